@@ -130,6 +130,69 @@ class Checker:
             self.bad("raised:simple", case, {"error": "%s: %s" % (type(e).__name__, str(e)[:200])})
 
 
+def zero_right_operands(ck, c, qt, u, v):
+    """an amount that is exactly zero is an amount like any other: in a unit with another zero point it still has to be
+    re-expressed (10 K + 0 degC is 283.15 K). Scalars with 0.0 / 0 / -0.0 and Arrays holding zeros in every container."""
+    import numpy as np
+    from barril.units import Array, Scalar
+
+    ctx, T = ck.ctx, ck.T
+    au, av = T.aff[u], T.aff[v]
+    case = {"zero right operand": True, "category": c, "qt": qt, "u": u, "v": v}
+    try:
+        z = T.db.Convert(qt, v, u, 0.0)
+        tol = conv.tol_in(au, conv.base_err(av, 0.0, au), z, 8.0) + 4 * conv.EPS * (10.0 + abs(z))
+        for zero in (0.0, 0, -0.0):
+            for name, r, want in (("+", Scalar(c, 10.0, u) + Scalar(c, zero, v), 10.0 + z), ("-", Scalar(c, 10.0, u) - Scalar(c, zero, v), 10.0 - z), ("0+", Scalar(c, zero, v) + Scalar(c, zero, u), T.db.Convert(qt, u, v, 0.0))):
+                ctx.ev()
+                t2 = tol if name != "0+" else conv.tol_in(av, conv.base_err(au, 0.0, av), want, 8.0) + 4 * conv.EPS * abs(want)
+                if not abs(r.GetValue() - want) <= t2:
+                    ck.bad("zero-operand-value:%s" % name, case, {"zero": repr(zero), "got": r.GetValue(), "want": want})
+        for kind, mk in (("list", list), ("tuple", tuple), ("nd", lambda x: np.array(x, dtype=float)), ("ndint", lambda x: np.array(x, dtype=np.int64))):
+            for ys in ([0.0, 0.0], [0.0, 2.0], [3.0, 0.0, 0.0]):
+                ctx.ev()
+                left = Array(c, [10.0] * len(ys), u)
+                got = list((left + Array(c, mk(ys), v)).GetValues())
+                want = [10.0 + T.db.Convert(qt, v, u, float(y)) for y in ys]
+                if not all(abs(g - w) <= tol + 8 * conv.EPS * abs(w) for g, w in zip(got, want)) or len(got) != len(want):
+                    ck.bad("zero-operand-array-value:%s" % kind, case, {"right": ys, "got": got, "want": want})
+    except Exception as e:
+        ctx.ev()
+        ck.bad("raised:zero-operand", case, {"error": "%s: %s" % (type(e).__name__, str(e)[:200])})
+
+
+def cancelling_categories(ck, db, r, n):
+    """a right operand whose categories partly cancel inside one quantity type (length**2 / diameter is a length, its
+    quantity-type string reads 'length') added to a plain amount of that type in another unit - Scalars and Arrays."""
+    cbt = table.categories_by_type(db)
+    T = ck.T
+    done = 0
+    for qt in sorted(cbt):
+        cs = cbt[qt]
+        us = [u for u in db.GetUnits(qt) if u in T.aff and T.aff[u].exact and T.aff[u].slope > 0 and T.aff[u].off == 0.0 and 1e-6 < T.aff[u].slope < 1e6]
+        if len(cs) < 2 or len(us) < 2:
+            continue
+        for t in range(n):
+            c1, c2 = r.sample(cs, 2)
+            u1, u2 = r.sample(us, 2)
+            k = r.choice([1, 1, 2])
+            vals = lambda: [r.choice([1.0, 2.0, 3.0, 0.5, 6.0]) for _ in range(3)]  # noqa
+            num = ("leaf", c1, vals(), u2)
+            for _ in range(k):
+                num = ("*", num, ("leaf", c1, vals(), u2))
+            den = ("leaf", c2, vals(), u2)
+            for _ in range(k - 1):
+                den = ("*", den, ("leaf", c2, vals(), u2))
+            sb = ("/", num, den)
+            sa = ("leaf", r.choice([c1, c2]), vals(), u1)
+            cls = "scalar" if t % 2 == 0 else "array"
+            ck.ctx.nt(("cancelling", qt, c1, c2, k, cls))
+            ck.pair(sa, sb, cls, r.choice(("list", "tuple", "nd")), r.choice(("list", "tuple", "nd")), 1 if cls == "scalar" else 3)
+            ck.pair(sb, sa, cls, "list", "nd", 1 if cls == "scalar" else 3)
+            done += 1
+    ck.ctx.count("pairs with partly cancelling categories", done)
+
+
 def run(ctx):
     from barril.units import Array, Scalar, UnitDatabase
 
@@ -176,6 +239,13 @@ def run(ctx):
                 ck.simple_affine(c, qt, u, v, r.choice(hv), r.choice(hv))
                 if u != v:
                     ctx.nt(("simple", c, u, v))
+            for u in offs:
+                for v in [w for w in us if T.aff[w].off != T.aff[u].off][: 3 if ctx.tier == "quick" else 40]:
+                    zero_right_operands(ck, c, qt, u, v)
+                    zero_right_operands(ck, c, qt, v, u)
+                    ctx.nt(("zero right operand", c, u, v))
+        if ctx.shard == 0:
+            cancelling_categories(ck, db, ctx.rng("cancel"), 2 if ctx.tier == "quick" else 12)
     ctx.inconclusive_if(probe.COUNTS["UnitDatabase.Sum"] == 0 or probe.COUNTS["UnitDatabase.Subtract"] == 0, "Sum/Subtract never reached")
 
 
